@@ -59,19 +59,50 @@ QUIET = {
  'q:padtype-explicit': [(S, "mote = sosfiltfilt(sos, mote, padlen=3 * n_coef)", "mote = sosfiltfilt(sos, mote, padtype='odd', padlen=3 * n_coef)")],
  'q:add-reordered': [(S, "self.reset_values(self.values + series)", "self.reset_values(np.asarray(series) + self.values)")],
 }
+# ---- audit round 1 (dtype / purity / state / scale classes) and the wave-3 change (cumulative-sum running average)
+FAULTS.update({
+ 'a1:runavg-convolve-same': [(S, "        self.reset_values(averaged)\n\n\nclass AccSignal", "        h = int(width / 2)\n        k = np.ones(2 * h + 1)\n        averaged = np.convolve(mot, k, mode='same') / np.convolve(np.ones(len(mot)), k, mode='same')\n        self.reset_values(averaged)\n\n\nclass AccSignal")],
+ 'a1:remove_poly-fn-inplace': [(G, "    return values - y_cor", "    values -= y_cor\n    return values")],
+ 'a1:add_series-inplace-on-argument': [(S, "            self.reset_values(self.values + series)", "            series += self.values\n            self.reset_values(series)")],
+ 'a1:remove_poly-fn-module-buffer': [(G, "    return values - y_cor", "    out = _OUT.setdefault(len(x), np.zeros(len(x)))\n    out[:] = values - y_cor\n    return out"), (G, "def remove_poly(values, poly_fit=0):", "_OUT = {}\n\n\ndef remove_poly(values, poly_fit=0):")],
+ 'a1:int-cast-removed': [(S, "        if self._values.dtype.kind in 'iub':  # integer counts: never compute in a fixed-width integer type\n            self._values = self._values.astype(float)\n", ""), (S, "        if self._values.dtype.kind in 'iub':\n            self._values = self._values.astype(float)\n", "")],
+ 'a1:default-cutoff-changed': [(S, "def butter_pass(self, cut_off=(0.1, 15), **kwargs):", "def butter_pass(self, cut_off=(0.1, 25), **kwargs):")],
+ 'a1:sampling-rate-rounded': [(S, "sampling_rate = 1.0 / self.dt\n        nyq", "sampling_rate = np.round(1.0 / self.dt, 3)\n        nyq")],
+ 'a1:micro-amplitude-skipped': [(S, "        mote = self.values\n        org_len = len(mote)", "        mote = self.values\n        if np.max(np.abs(mote)) < 1e-10:\n            return\n        org_len = len(mote)")],
+ 'a1:gibbs-pad-isclose-zero': [(S, "            end_value = np.mean(mote[-gibbs_range:])", "            end_value = np.mean(mote[-gibbs_range:])\n            if np.isclose(end_value, 0):\n                end_value = 0.0")],
+ 'a1:inplace-cutoff': [(S, "            cut_off = np.array(cut_off)\n", "            cut_off = np.asarray(cut_off, dtype=float)\n"), (S, "        wp = cut_off / nyq\n", "        cut_off /= nyq\n        wp = cut_off\n")],
+})
+# ---- audit round 2: one mutant per new workload class
+FAULTS.update({
+ # real widths just below an even integer ((k*dt)/dt for awkward dt): floor(w/2) != round(w)/2
+ 'a2:real-width-rounded': [(S, "int(width / 2)", "int(np.round(width) / 2)", 'all')],
+ # non-integer sampling rates (dt = 0.03, 1/49 ... with cut-offs relative to Nyquist)
+ 'a2:sampling-rate-int': [(S, "sampling_rate = 1.0 / self.dt\n        nyq", "sampling_rate = float(int(1.0 / self.dt)) if self.dt < 1 else 1.0 / self.dt\n        nyq")],
+ # sinusoid + constant offset through a low-pass (|H(0)|^2 = 1)
+ 'a2:demean-before-filter': [(S, "        mote = self.values\n        org_len = len(mote)", "        mote = self.values - np.mean(self.values)\n        org_len = len(mote)")],
+ # lengths past 256 (block-wise window): only records of >= 257 samples
+ 'a2:runavg-blocks-256': [(S, "                cc1 = i - int(width / 2)\n                cc2", "                cc1 = max(i - int(width / 2), (i // 256) * 256)\n                cc2")],
+ # one-sided (all non-positive) records
+ 'a2:gibbs-pad-onesided': [(S, "            start_value = np.mean(mote[:gibbs_range])", "            start_value = np.mean(mote[:gibbs_range]) if np.any(mote > 0) else 0.0")],
+})
+
+
 def restore():
     for f in (S,G): shutil.copy(SRC+f, DST+f)
 def apply(edits):
-    for f,a,b in edits:
+    for e in edits:
+        f,a,b=e[:3]
         s=open(DST+f).read()
         assert s.count(a)>=1, (f,a)
-        s=s.replace(a,b,1)
+        s=s.replace(a,b) if len(e)>3 and e[3]=='all' else s.replace(a,b,1)
         open(DST+f,'w').write(s)
 def run(extra=()):
     env=dict(os.environ, EQSIG_REPO='/tmp/build_C17')
     t=time.time()
     r=subprocess.run(['./check','C17',*extra],cwd='/verif',env=env,capture_output=True,text=True)
     return r.returncode, r.stdout, time.time()-t
+if not os.path.isdir('/tmp/build_C17'):
+    shutil.copytree('/repo','/tmp/build_C17')
 names=sys.argv[1:] or list(FAULTS)+list(QUIET)
 allf=dict(FAULTS); allf.update(QUIET)
 for nm in names:
@@ -82,3 +113,4 @@ for nm in names:
     last=out.strip().splitlines()[-1] if rc!=1 else ''
     print('%-42s exit=%d %4.0fs %s %s %s'%(nm,rc,tt,viol[:8], first[0].split('replay=')[1] if first else '', last[:150]),flush=True)
 restore()
+
